@@ -27,6 +27,7 @@ RULE = (
     "assign_confidence(proteins=...) outputs incl. protein q-values. Non-trivial = >=1 pair in which both the "
     "target and the decoy group own a retained peptide and >=1 shared peptide present; distinct = case parameters."
     " cli_digest: the command-line tool with --proteins and non-default --decoy_prefix / --missed_cleavages / --min_length / --clip_nterm_methionine on databases where the option matters (initiator methionines, peptides spanning a missed cleavage), judged against read_fasta() with the same options."
+    " Every sixth direct table is sparse: one peptide per occurring protein group."
 )
 ASSUMPTIONS = [
     "token -> group lookup uses the real Proteins.peptide_map (C16)",
@@ -144,6 +145,17 @@ def run_direct(case):
         k = int(rng.integers(len(ttoks) // 3, len(ttoks)))
         toks = [str(t) for t in rng.choice(ttoks, size=k, replace=False)] + [str(t) for t in rng.choice(dtoks, size=int(k * 0.8), replace=False)]
         is_t = [True] * k + [False] * int(k * 0.8)
+        if case["index"] % 6 == 2:
+            # sparse table: every protein group (target or decoy) that occurs at all occurs with exactly one peptide
+            by_group = {}
+            for pep_, grp_ in proteins.peptide_map.items():
+                by_group.setdefault(grp_, []).append(pep_)
+            toks, is_t = [], []
+            for grp_ in sorted(by_group):
+                if rng.random() < 0.6:
+                    toks.append(str(rng.choice(sorted(by_group[grp_]))))
+                    is_t.append(not grp_.startswith(db["prefix"]))
+            res.count("sparse_tables")
         n_unknown = int(rng.integers(0, max(1, len(toks) // 60)))
         for _ in range(n_unknown):
             toks.append(prot._token(rng, 9))
